@@ -231,11 +231,13 @@ def AxV.ofTable (t : Table α) (ax : Axis) : AxV := { ids := t.ids ax, md := t.m
 
 def AxV.step (f : MdFun) (m : Mode) (ax : Axis) (v : AxV) (t : Table α) : AxV :=
   let ids := newOrder m v.ids (t.ids ax)
-  let g := fun id => f (v.md id) (t.mdOf? ax id)
+  -- the merged entries are computed once per step (the list form may fold dozens of tables)
+  let gs := ids.map (fun id => f (v.md id) (t.mdOf? ax id))
+  let allEmpty := gs.all (fun e => (canon e).isEmpty)
   { ids := ids,
     md := fun id =>
-      if ids.all (fun i => (canon (g i)).isEmpty) then none
-      else if id ∈ ids then some (canon (g id)) else none }
+      if allEmpty then none
+      else (lookupBy ids gs id).map canon }
 
 def specMd (f : MdF) (m : Mode) (ax : Axis) (a : Table α) (others : List (Table α)) : AxV :=
   others.foldl (AxV.step (applyF f) m ax) (AxV.ofTable a ax)
@@ -306,6 +308,18 @@ def namedF (name : String) : Codec.R MdFun :=
   | "tag_always" => pure (fun x y => some [("src", tagOf x y)])
   | "count_described" => pure (fun x y =>
       some [("described_by", toString ((if x.isSome then 1 else 0) + (if y.isSome then 1 else 0) : Nat))])
+  -- reads fields by subscription (a field the entry lacks reads as None): adds up `depth`, keeps the first `grp`
+  | "sum_depth" => pure (fun x y => match x, y with
+      | none, none => none
+      | _, _ =>
+        let depthOf : Md → Int := fun m => ((m.lookup "depth").bind String.toInt?).getD 0
+        let grpOf : Md → Option String := fun m =>
+          match m.lookup "grp" with
+          | some "null" => none
+          | r => r
+        let d := (x.map depthOf).getD 0 + (y.map depthOf).getD 0
+        let g := (match x.bind grpOf with | some g => some g | none => y.bind grpOf).getD "null"
+        some [("depth", toString d), ("grp", g)])
   | s => .error s!"unknown metadata function {s}"
 
 /-! ### JSON glue -/
